@@ -76,6 +76,11 @@ CLAIMED = {
    text="For generated shapes of every kind: rotated start vertices, inserted collinear vertices, curved segments split where the model says no piece is degree-reduced, int/Fraction/float renderings, permuted components/holes, copies (must all be ==), and moved vertex / reversed orientation / translated hole or component of equal area / other kind (must be !=); also on the boundary JordanCurves including mixed degrees.",
    note="Trusted: the construction itself (truth known by construction; spec validity of moved holes/components decided exactly by the reference).",
    ref="4/C07"),
+ "C09": dict(
+   technique="property-based testing (Hypothesis): generated transformation sequences and their inverses applied to library shapes and, independently, to the model's control points",
+   text="Generated shapes of every kind with sequences of 1-6 move/scale/rotate calls (both call forms, anisotropic factors, radians and degrees) and the inverse sequence; after every step: same object returned, control points equal to the model's (exact with rational types for rational move/scale), then area, moments, signed boundary length, membership of transformed points, restoration by the inverse and == with a fresh original.",
+   note="Trusted: the affine maps applied to the model (plain arithmetic) and the C04 reference integrals.",
+   ref="4/C09"),
 }
 NOT_YET = "check not built yet in this round (planned, see DESIGN.md section 4); nothing is claimed for it"
 
